@@ -81,9 +81,10 @@ class Elem:
                 self.route = lambda pkt: (self.branch_taps[pkt.flow_id] if pkt.flow_id < n else self.default_tap)
             elif t == "fibdemux":
                 fib = {f: (f * 2 + 1) % (n + 1) for f in flows if f % 4 != 3}
-                self.dev = FIBDemux(outs=list(self.branch_taps), fib=fib, default_out=self.default_tap)
-                self.route = lambda pkt: (self.branch_taps[fib[pkt.flow_id]] if pkt.flow_id in fib and fib[pkt.flow_id] < n
-                                          else self.default_tap)
+                self.dev = FIBDemux(outs=list(self.branch_taps), fib=dict(fib), default_out=self.default_tap)
+                fib_at = self._refib(spec, fib, {f: (f + 2) % (n + 1) for f in flows if f % 4 != 0}, self.dev)
+                self.route = lambda pkt: (self.branch_taps[fib_at(pkt)[pkt.flow_id]]
+                                          if pkt.flow_id in fib_at(pkt) and fib_at(pkt)[pkt.flow_id] < n else self.default_tap)
             elif t == "simpleswitch":
                 self.dev = SimplePacketSwitch(env, n, rate, spec.get("qlimit", 4), element_id=name)
                 for i, p in enumerate(self.dev.ports):
@@ -98,10 +99,11 @@ class Elem:
                     wts, f2c = {c: 1 + c for c in range(2)}, (lambda f: f % 2)
                 self.dev = FairPacketSwitch(env, n, rate, spec.get("qlimit", 4), wts, spec.get("server", "WFQ"),
                                             element_id=name, flow2class=f2c)
-                self.dev.demux.fib = fib
+                self.dev.demux.fib = dict(fib)
                 for i, p in enumerate(self.dev.ports):
                     p.out = self.branch_taps[i]
-                self.route = lambda pkt: self.branch_taps[fib[pkt.flow_id]]
+                fib_at = self._refib(spec, fib, {f: (f + 1) % n for f in flows}, self.dev.demux)
+                self.route = lambda pkt: self.branch_taps[fib_at(pkt)[pkt.flow_id]]
                 self.counted = lambda: sum(p.packets_dropped for p in self.dev.egress_ports)
             self.no_route = lambda pkt: self.route(pkt) is None
             self.outs = list(self.branch_taps) + ([self.default_tap] if self.default_tap else [])
@@ -112,6 +114,30 @@ class Elem:
             self.dev.out = self.out
             self.outs = [self.out]
         self.inp = lab.tap(f"{name}.in", self.dev)
+
+    def _refib(self, spec, fib1, fib2, demux):
+        """the forwarding table is moved at an instant that is no arrival instant (odd multiple of 2^-11): packets that enter
+        before it follow the old table, packets that enter after it the new one. Returns packet -> table in force at its entry."""
+        k = spec.get("refib")
+        if not k:
+            return lambda pkt: fib1
+        T = k / 2048
+        ev = self.lab.env.timeout(T)
+        if spec.get("refib_inplace"):
+            def move(_e):
+                d = demux.fib
+                d.clear()
+                d.update(fib2)
+        else:
+            def move(_e):
+                demux.fib = dict(fib2)
+        ev.callbacks.append(move)
+        self.refibbed = True
+
+        def fib_at(pkt):
+            t_in = next(r.now for r in self.inp.recs if r.pkt is pkt)
+            return fib2 if t_in > T else fib1
+        return fib_at
 
     # accounting at any instant: in = out + counted drops + (lost on a lossy wire | no route) + held, each packet once
     def check_step(self):
@@ -126,6 +152,8 @@ class Elem:
                                        f"route: more packets left or were discarded than entered", "C08.accounting/" + self.type)
 
     def check_end(self, classes):
+        if getattr(self, "refibbed", False) and self.inp.recs and self.inp.recs[-1].now > self.spec["refib"] / 2048 > self.inp.recs[0].now:
+            classes.add("forwarding table moved between two packets")
         ins = {id(r.pkt): r for r in self.inp.recs}
         if len(ins) != len(self.inp.recs):
             return      # the same object entered twice (splitter original + copy never does this); skip
@@ -148,10 +176,12 @@ class Elem:
                                     "C08.fields/" + self.type)
                 if not self.single_out and self.route(r.pkt) is not o:
                     raise Violation("C08.route", f"{self.name} ({self.type}) sent flow {r.snap[1]} to {o.name}", "C08.route/" + self.type)
-        # per-flow FIFO over all outputs in exit order
+        # per-flow FIFO over all outputs in exit order (per table epoch when the forwarding table was moved: packets routed to
+        # a new output port legitimately overtake those still queued at the old one)
+        moved = getattr(self, "refibbed", False)
         for r in sorted(seen.values(), key=lambda r: r.seq):
             ri = ins[id(r.pkt)]
-            f = ri.snap[1]
+            f = ri.snap[1] if not moved else (ri.snap[1], ri.now > self.spec["refib"] / 2048)
             if f in per_flow_last and ri.seq < per_flow_last[f]:
                 raise Violation("C08.flow_fifo", f"{self.name} ({self.type}): packets of flow {f} left out of order", "C08.flow_fifo/" + self.type)
             per_flow_last[f] = ri.seq
@@ -192,9 +222,19 @@ def run_element(case):
         el = Elem(lab, case["elem"], flows, "e0")
         lab.inject(el.inp, case["wl"])
         lab.after_step.append(el.check_step)
+        twin = None
+        if case.get("wl2"):
+            # a second element of the same kind and parameters in the same environment (the other ports of a switch, the other
+            # direction of a link): it serves its own packets; the two share nothing
+            twin = Elem(lab, case["elem"], sorted({w[1] for w in case["wl2"]}), "e1")
+            lab.inject(twin.inp, case["wl2"], src_prefix="twin")
+            lab.after_step.append(twin.check_step)
         lab.run()
         classes = {case["elem"]["type"]}
         el.check_end(classes)
+        if twin is not None:
+            twin.check_end(set())
+            classes.add("twin element in the same environment")
         if el.type in ("port", "port0"):
             # "discarded by that element's documented rule": the tail-drop rule itself is C09's reference server
             from . import c09
@@ -474,6 +514,8 @@ def elem_spec(types=ELEMENT_TYPES):
             base.update(strcls=st.sampled_from([0, 0, 1, 2]))
         if t == "VC":
             base.update(vt0=st.booleans())
+        if t in ("fibdemux", "fairswitch"):
+            base.update(refib=st.sampled_from([0, 0, 1, 129, 513, 1025, 2049]), refib_inplace=st.booleans())
         if t in ("flowdemux", "fibdemux", "simpleswitch", "fairswitch"):
             base.update(nouts=st.integers(1, 4), default=st.booleans(), qlimit=st.sampled_from([2, 4, 50]),
                         server=st.sampled_from(["WFQ", "DRR", "VirtualClock"]))
@@ -485,7 +527,8 @@ def element_strategy(tier):
     big = tier == "thorough"
     wl = netlab.workload([0, 1, 2, 3], n_max=60 if big else 30, exact=True, min_size=3,
                          sizes=st.sampled_from([64, 128, 512, 1024, 1500, 3000]))
-    return st.fixed_dictionaries({"elem": elem_spec(), "wl": wl, "seed": st.integers(0, 10 ** 6)})
+    return st.fixed_dictionaries({"elem": elem_spec(), "wl": wl, "seed": st.integers(0, 10 ** 6),
+                                  "wl2": kgen.weighted([(st.none(), 2), (wl, 1)])})
 
 
 CHAINABLE = ["port", "port0", "red", "wire", "wire_loss", "tb", "trtb", "SP", "WFQ", "VC", "DRR", "RR", "WRR"]
@@ -544,7 +587,8 @@ PROP = Property(
           "= >=2 flows, a same-instant burst, and queueing or a discard actually happened."),
     facets=[
         Facet("elements", element_strategy, run_element, quick=4000, thorough=12000,
-              essential=ELEMENT_TYPES + ["counted drop", "wire loss", "no route", "queued or delayed"]),
+              essential=ELEMENT_TYPES + ["counted drop", "wire loss", "no route", "queued or delayed",
+                                             "twin element in the same environment", "forwarding table moved between two packets"]),
         Facet("pipelines", pipeline_strategy, run_pipeline, quick=1200, thorough=6000,
               essential=["fan-in", "fan-out", "splitter", "counted drop", "depth 3"]),
         Facet("generator", generator_strategy, run_generator, quick=400, thorough=2000,
